@@ -101,9 +101,28 @@ def run(cx):
     hf = fb.one(r"artifact_content::operation_text::hash$")
     sws = [s for s in discr_switches(hf) if (s["adt"] or "").endswith("PersistedDocumentsHashAlgorithm")]
     ok = len(sws) == 1 and not sws[0]["wildcard"]
-    upd = [t for t in hf.calls() if re.search(r"Update>?::update$|Digest>?::update$", (t.declared or "") + (t.callee or ""))]
-    ok = ok and len(upd) >= len(sws[0]["arms"]) and all(
-        op_place(t.args[1]) is not None and samesrc.producer(hf, op_place(t.args[1]).local)[:2] == ("param", 1) for t in upd)
+    UPD = r"Update>?::update$|Digest>?::update$"
+
+    def feeds_digest(f_, t, depth=1):
+        """does call `t` in `f_` pass the data (parameter 1 of hash) to a digest update, directly or through a helper?"""
+        for i, a in enumerate(t.args):
+            pl = op_place(a)
+            if pl is None or samesrc.producer(f_, pl.local)[:2] != ("param", 1):
+                continue
+            if re.search(UPD, (t.declared or "") + (t.callee or "")):
+                return True
+            g_ = fb.fns.get(t.callee)
+            if g_ is not None and depth > 0:
+                for t2 in g_.calls():
+                    if re.search(UPD, (t2.declared or "") + (t2.callee or "")) and len(t2.args) > 1 and op_place(t2.args[1]) is not None \
+                            and samesrc.producer(g_, op_place(t2.args[1]).local)[:2] == ("param", i + 1):
+                        return True
+        return False
+    if ok:
+        regs = sibling.arm_regions(hf, sws[0])
+        for arm, reg in regs.items():
+            if not any(hf.blocks[b].term.op == "call" and feeds_digest(hf, hf.blocks[b].term) for b in reg):
+                ok = False
     cx.ob("R26.hash-what-you-store", hf.id + "|digest-of-the-data", ok,
           "hash() must feed its data argument to the digest of every algorithm variant (no wildcard)", hf.loc())
     # ---- R26.format-is-whitespace ---------------------------------------------------------------------
